@@ -119,8 +119,19 @@ def s_event(name, ret=None):
         st.events.append((name,) + tuple(origin(st, a) if isinstance(obj(st, a), ObjV) or isinstance(a, RefV) else str(a) for a in args[1:3]))
         if ret == 'result':
             out = []
+            unit = ty is None or re.search(r'Result<\(\)', ty or '') is not None
             for good in (True, False):
-                s2 = st.clone(); out.append((s2, ok(s2, UNIT) if good else err(s2, named(s2, 'err:' + name))))
+                s2 = st.clone()
+                if good and not unit:
+                    # an edit made the read functions answer something (a decision, a count): any value of that type
+                    v = ex.fresh_value(s2, ty, s2.fresh_name(name)); s2.pc.append(ex.discr(s2, v).t == 0)
+                    p_ = re.search(r'Result<([^,]+),', ty)
+                    if p_ and p_.group(1).strip() in ex.enums:
+                        pl = ex.load(s2, v.oid, ('f', 'Ok', 0), p_.group(1).strip()); dd = ex.discr(s2, pl).t
+                        s2.pc.append(z3.And(dd >= 0, dd < len(ex.enums[p_.group(1).strip()])))
+                    out.append((s2, v))
+                else:
+                    out.append((s2, ok(s2, UNIT) if good else err(s2, named(s2, 'err:' + name))))
             return out
         return [(st, ex.fresh_value(st, ty or '()', st.fresh_name(name)))]
     event.__name__ = 'event_' + name
